@@ -83,16 +83,18 @@ type mstep struct {
 	Bl   bool   `json:"bl,omitempty"`
 	Ban  bool   `json:"ban,omitempty"`
 	Live bool   `json:"live,omitempty"`
-	Form string `json:"form,omitempty"` // black-/whitelist entry: ip (the address) | net (range containing it) | other (range elsewhere)
-	N    int    `json:"n,omitempty"`    // Idle: ticks; Flood: number of AllowIP calls
-	Adm  int    `json:"adm,omitempty"`  // Flood: admissions the model expects
+	Form string `json:"form,omitempty"`  // black-/whitelist entry: ip (the address) | net (range containing it) | other (range elsewhere)
+	N    int    `json:"n,omitempty"`     // Idle: ticks; Flood: number of AllowIP calls
+	Adm  int    `json:"adm,omitempty"`   // Flood: admissions the model expects
+	Flt  bool   `json:"fault,omitempty"` // the storage write behind this operator action fails
 }
 
 type behaviour struct {
-	C    mcfg    `json:"c"`
-	S    []mstep `json:"s"`
-	Bad  string  `json:"bad,omitempty"`  // how a failed authentication is produced: unknown | hmac | nochal
-	Free *freeP  `json:"free,omitempty"` // free-running variant
+	C     mcfg    `json:"c"`
+	S     []mstep `json:"s"`
+	Bad   string  `json:"bad,omitempty"`   // how a failed authentication is produced: unknown | hmac | nochal
+	FltAt string  `json:"fltAt,omitempty"` // which storage call fails under a fault: set | list
+	Free  *freeP  `json:"free,omitempty"`  // free-running variant
 }
 
 type freeP struct {
@@ -343,6 +345,7 @@ type world struct {
 	ipmStop  context.CancelFunc
 	ctx      context.Context
 	store    storage.Storage // what the IPManager persists to: survives a Reload
+	faults   *faultStore     // the same storage, as fault injector
 	rl       *security.RateLimiter
 	auth     *server.ServerAuthHandler
 	cloud    *fakeCloud
@@ -373,13 +376,46 @@ func newWorld(beh *behaviour, free bool, win, ban time.Duration, rate int) *worl
 	w.bf = security.NewBruteForceProtector(&security.BruteForceConfig{MaxFailures: beh.C.Thr, TimeWindow: win, BanDuration: ban,
 		PermanentBanAt: beh.C.Perm, CleanupInterval: time.Hour}, ctx)
 	w.ctx = ctx
-	w.store = storage.NewMemoryStorage(ctx)
+	w.faults = &faultStore{Storage: storage.NewMemoryStorage(ctx)}
+	w.faults.lists, _ = w.faults.Storage.(storage.ListStore)
+	w.store = w.faults
 	w.newIPManager()
 	w.rl = security.NewRateLimiter(&security.RateLimitConfig{Rate: rate, Burst: beh.C.Burst, TTL: time.Hour}, nil, ctx)
 	w.cloud = &fakeCloud{w: w, byGid: map[int64]int{}}
 	w.auth = server.NewServerAuthHandler(w.cloud, sharedSM, w.bf, w.ipm, w.rl, keys)
 	w.start = time.Now()
 	return w
+}
+
+// faultStore is the memory storage with an injectable write fault (a Redis / remote-storage outage):
+// while `fail` is "set" every Set fails, while it is "list" every AppendToList fails.
+type faultStore struct {
+	storage.Storage
+	lists storage.ListStore
+	fail  atomic.Value // string
+}
+
+var errInjected = errors.New("c18: injected storage fault")
+
+func (f *faultStore) failing(what string) bool { v, _ := f.fail.Load().(string); return v == what }
+func (f *faultStore) Set(key string, value any, ttl time.Duration) error {
+	if f.failing("set") {
+		return errInjected
+	}
+	return f.Storage.Set(key, value, ttl)
+}
+func (f *faultStore) SetList(key string, values []any, ttl time.Duration) error {
+	return f.lists.SetList(key, values, ttl)
+}
+func (f *faultStore) GetList(key string) ([]any, error) { return f.lists.GetList(key) }
+func (f *faultStore) AppendToList(key string, value any) error {
+	if f.failing("list") {
+		return errInjected
+	}
+	return f.lists.AppendToList(key, value)
+}
+func (f *faultStore) RemoveFromList(key string, value any) error {
+	return f.lists.RemoveFromList(key, value)
 }
 
 // newIPManager (re)creates the IPManager over the world's storage, as a restart of the server (or a
@@ -577,6 +613,7 @@ func drive(env *fw.Env, b fw.Behaviour) *fw.Trace {
 	cur := map[string]*hsCall{}
 	nClean, cleanName, cleanT0 := 0, "", int64(0) // a clean-up pass running as its own process (CleanScan .. CleanDel)
 	diverged := ""
+	concN := 0 // > 0: the history has a ConcFirst step; the same step is repeated for many more fresh addresses at the end
 	nCalls := map[string]int{}
 	released := map[string]int{}
 	logHs := func(c *hsCall, out hsOut, exp string) *fw.Trace {
@@ -632,6 +669,17 @@ func drive(env *fw.Env, b fw.Behaviour) *fw.Trace {
 				}
 			}
 			noteAgree(b.Src, got == st.Adm, fmt.Sprintf("beh %d: flood of %d admitted %d, model %d", b.ID, st.N, got, st.Adm))
+		case "ConcFirst": // st.N AllowIP calls released together for an address that has no bucket yet
+			oks, t0s, t1s := w.concurrentFirst(w.realIP(st.IP), st.N)
+			got := 0
+			for k := range oks {
+				w.log(fw.Event{"ev": "Take", "ip": st.IP, "ok": oks[k], "t0": t0s[k], "t1": t1s[k]})
+				if oks[k] {
+					got++
+				}
+			}
+			concN = st.N
+			noteAgree(b.Src, got == st.Adm, fmt.Sprintf("beh %d: %d concurrent first calls admitted %d, model %d", b.ID, st.N, got, st.Adm))
 		case "FloodHs": // st.N registration handshakes back to back through the real HandleHandshake
 			gap()
 			got := 0
@@ -767,10 +815,19 @@ func drive(env *fw.Env, b fw.Behaviour) *fw.Trace {
 			if st.A == "BlkP" {
 				d = 0
 			}
-			if err := w.ipm.AddToBlacklist(w.entryKey(st.IP, st.Form), d, "c18", "operator"); err != nil {
+			if st.Flt {
+				at := beh.FltAt
+				if at == "" {
+					at = "set"
+				}
+				w.faults.fail.Store(at)
+			}
+			err := w.ipm.AddToBlacklist(w.entryKey(st.IP, st.Form), d, "c18", "operator")
+			w.faults.fail.Store("")
+			if err != nil && !st.Flt { // under a fault an error for the operator is a legitimate answer
 				return &fw.Trace{Status: fw.DriverError, Note: err.Error()}
 			}
-			w.log(fw.Event{"ev": "Blk", "ip": st.IP, "perm": st.A == "BlkP", "form": st.Form, "t0": t0, "t1": w.ms1()})
+			w.log(fw.Event{"ev": "Blk", "ip": st.IP, "perm": st.A == "BlkP", "form": st.Form, "fault": st.Flt, "t0": t0, "t1": w.ms1()})
 			needGap = true
 		case "MUnbl":
 			t0 := w.ms0()
@@ -846,6 +903,28 @@ func drive(env *fw.Env, b fw.Behaviour) *fw.Trace {
 			query(ip, true, nil)
 		}
 	}
+	if concN > 0 {
+		// the race between first requests is a matter of microseconds: the same abstract step - concN calls
+		// at once for an address without a bucket - is realised for many more fresh addresses (outside the
+		// timed part of the history; each is judged on its own bracket)
+		for j := 0; j < freshAddrs; j++ {
+			ip := fmt.Sprintf("198.%d.%d.%d", 18+int(worldSeq.Load()/60000)%2, (int(b.ID)*7+j/250)%250, j%250+1)
+			oks, t0s, t1s := w.concurrentFirst(ip, concN)
+			got, lo, hi := 0, t0s[0], t1s[0]
+			for k := range oks {
+				if oks[k] {
+					got++
+				}
+				if t0s[k] < lo {
+					lo = t0s[k]
+				}
+				if t1s[k] > hi {
+					hi = t1s[k]
+				}
+			}
+			w.log(fw.Event{"ev": "TakeBatch", "ip": st0ip(beh.S), "n": concN, "ok": got, "t0": lo, "t1": hi})
+		}
+	}
 	if overrun != "" {
 		return &fw.Trace{Status: fw.Inconclusive, Note: overrun}
 	}
@@ -853,6 +932,48 @@ func drive(env *fw.Env, b fw.Behaviour) *fw.Trace {
 		return &fw.Trace{Status: fw.Diverged, Note: diverged, Events: w.events}
 	}
 	return &fw.Trace{Status: fw.Realised, Events: w.events}
+}
+
+const freshAddrs = 160
+
+func st0ip(steps []mstep) string {
+	for _, s := range steps {
+		if s.IP != "" {
+			return s.IP
+		}
+	}
+	return "a"
+}
+
+// concurrentFirst makes n goroutines call AllowIP(ip) at the same instant (spin barrier) and returns each
+// call's answer and bracket.
+func (w *world) concurrentFirst(ip string, n int) (oks []bool, t0s, t1s []int64) {
+	oks, t0s, t1s = make([]bool, n), make([]int64, n), make([]int64, n)
+	var ready, goFlag atomic.Int32
+	var wg sync.WaitGroup
+	for k := 0; k < n; k++ {
+		wg.Add(1)
+		go func(k int) {
+			defer wg.Done()
+			ready.Add(1)
+			for spins := 0; goFlag.Load() == 0; spins++ {
+				if spins%2000 == 1999 {
+					runtime.Gosched()
+				}
+			}
+			t0s[k] = w.ms0()
+			oks[k] = w.rl.AllowIP(ip)
+			t1s[k] = w.ms1()
+		}(k)
+	}
+	for spins := 0; int(ready.Load()) < n; spins++ {
+		if spins%2000 == 1999 {
+			runtime.Gosched()
+		}
+	}
+	goFlag.Store(1)
+	wg.Wait()
+	return
 }
 
 func sortedKeys(m map[string]*hsCall) []string {
@@ -1130,6 +1251,10 @@ func selfTest(env *fw.Env, acc []*fw.Trace) []*fw.Trace {
 			switch e["ev"] {
 			case "MUnban", "Clean", "Wl", "MUnbl", "Take":
 				simple = false
+			case "Blk":
+				if e["fault"] == true {
+					simple = false
+				}
 			case "Hs":
 				if e["res"] == "fail" {
 					nFail++
@@ -1275,7 +1400,7 @@ type tm struct{ thr, perm, win, ban, clock int }
 
 func (t tm) consts() map[string]string {
 	return map[string]string{"THR": strconv.Itoa(t.thr), "PERMAT": strconv.Itoa(t.perm), "WIN": strconv.Itoa(t.win), "BAN": strconv.Itoa(t.ban),
-		"MAXCLOCK": strconv.Itoa(t.clock), "MAXTOTAL": strconv.Itoa(t.perm + 1), "MAXADM": "4", "BLFORMS": `{"ip", "net"}`}
+		"MAXCLOCK": strconv.Itoa(t.clock), "MAXTOTAL": strconv.Itoa(t.perm + 1), "MAXADM": "4", "BLFORMS": `{"ip", "net"}`, "IPS": `{"a"}`}
 }
 
 func mcJob(name, procs, acts, atomic, fixed, invs string, t tm) fw.TLCJob {
@@ -1295,6 +1420,24 @@ func reloadClock(env *fw.Env) int {
 		return 2
 	}
 	return 0
+}
+
+func genRecycle(env *fw.Env) fw.TLCJob {
+	acts, mc := `{"Bad", "Good", "Query"}`, 0
+	if env.Tier == "thorough" {
+		acts, mc = `{"Bad", "Good", "Query", "Tick", "Clean"}`, 2
+	}
+	j := genJob("gen:recycle", `{"h1"}`, acts, "TRUE", fixAll, `{"inherit"}`, tm{2, 3, 2, 2, mc})
+	j.Consts["IPS"] = `{"a", "b"}`
+	return j
+}
+
+func genFault(env *fw.Env) fw.TLCJob {
+	acts, mc := `{"Blk", "BlkP", "BlkF", "Query"}`, 0
+	if env.Tier == "thorough" {
+		acts, mc = `{"Blk", "BlkP", "BlkF", "MUnbl", "Tick", "Query"}`, 2
+	}
+	return genJob("gen:fault", `{"h1"}`, acts, "TRUE", fixAll, `{"fault"}`, tm{2, 3, 2, 2, mc})
 }
 
 func genRateHs(env *fw.Env) fw.TLCJob {
@@ -1338,10 +1481,13 @@ func main() {
 		ModelJobs: func(env *fw.Env) []fw.TLCJob {
 			if env.Tier == "quick" {
 				lists := `{"Blk", "BlkP", "MUnbl", "Wl", "Query", "Tick", "Unbl", "Reload", "CleanL"}`
-				rate := mcJob("mc:rate", one, `{"Anon", "Anon2", "Zero", "Tick", "Idle", "Flood", "FloodHs"}`, "TRUE", fixAll, strict, tm{2, 3, 2, 2, 8})
+				rate := mcJob("mc:rate", one, `{"Anon", "Anon2", "Zero", "Tick", "Idle", "Flood", "FloodHs", "ConcFirst"}`, "TRUE", fixAll, strict, tm{2, 3, 2, 2, 8})
 				rate.Consts["MAXADM"] = "8"
+				recycle := mcJob("mc:recycle", one, `{"Bad", "Good", "Query", "Tick", "Clean"}`, "TRUE", fixAll, strict, tm{2, 3, 2, 2, 2})
+				recycle.Consts["IPS"] = `{"a", "b"}` // two addresses: released failure records belong to nobody
 				return []fw.TLCJob{
-					rate,
+					rate, recycle,
+					mcJob("mc:lists:fault", one, `{"Blk", "BlkP", "BlkF", "MUnbl", "Wl", "Query", "Tick", "Unbl", "CleanL"}`, "TRUE", fixAll, strict, tm{2, 3, 2, 2, 3}),
 					// deviation "split clean-up" (scan, then delete): violations only through cleanLive
 					mcJob("mc:clean-split", one, `{"Bad", "Query", "Tick", "CleanScan", "CleanDel", "MUnban"}`, "FALSE", fixAll, "BanHoldsOrKnown BlacklistHolds", tm{2, 3, 2, 2, 4}),
 					mcJob("mc:lists:head", one, lists, "TRUE", fixHead, "BanHolds BlacklistHoldsOrKnown", tm{2, 3, 2, 2, 4}),
@@ -1355,13 +1501,16 @@ func main() {
 			full := `{"Bad", "Good", "Query", "Tick", "Unban", "CleanF", "CleanB", "MUnban"}`
 			lists := `{"Blk", "BlkP", "BlkO", "MUnbl", "Wl", "WlO", "UnWl", "Query", "Tick", "Unbl", "CleanL", "Reload"}`
 			listsHs := `{"Blk", "BlkP", "MUnbl", "Wl", "Query", "Tick", "Unbl", "Reload", "Anon", "Bad"}` // lists in front of the other gates
-			rate := mcJob("mc:rate", one, `{"Anon", "Anon2", "Zero", "Tick", "Idle", "Flood", "FloodHs"}`, "TRUE", fixAll, strict, tm{2, 3, 2, 2, 9})
+			rate := mcJob("mc:rate", one, `{"Anon", "Anon2", "Zero", "Tick", "Idle", "Flood", "FloodHs", "ConcFirst"}`, "TRUE", fixAll, strict, tm{2, 3, 2, 2, 9})
 			rate.Consts["MAXADM"] = "10"
 			l3a := mcJob("mc:lists3:as-is", one, `{"Blk", "BlkP", "MUnbl", "Wl", "Query", "Tick", "Unbl", "Reload", "CleanL"}`, "TRUE", "{}", asIs, tm{2, 3, 2, 2, 4})
 			l3r := mcJob("mc:lists3:repaired", one, `{"Blk", "BlkP", "MUnbl", "Wl", "Query", "Tick", "Unbl", "Reload", "CleanL"}`, "TRUE", fixAll, strict, tm{2, 3, 2, 2, 4})
 			l3a.Consts["BLFORMS"], l3r.Consts["BLFORMS"] = `{"ip", "net", "net2"}`, `{"ip", "net", "net2"}`
+			recycle := mcJob("mc:recycle", two, `{"Bad", "Good", "Query", "Tick", "Clean", "Unban"}`, "FALSE", fixAll, strict, tm{2, 3, 2, 2, 3})
+			recycle.Consts["IPS"] = `{"a", "b"}`
 			return []fw.TLCJob{
-				rate, l3a, l3r,
+				rate, l3a, l3r, recycle,
+				mcJob("mc:lists:fault", one, `{"Blk", "BlkP", "BlkF", "MUnbl", "Wl", "UnWl", "Query", "Tick", "Unbl", "CleanL"}`, "TRUE", fixAll, strict, tm{2, 3, 2, 2, 4}),
 				mcJob("mc:clean-split", two, `{"Bad", "Query", "Tick", "CleanScan", "CleanDel", "MUnban"}`, "FALSE", fixAll, "BanHoldsOrKnown BlacklistHolds", tm{2, 3, 2, 2, 4}),
 				mcJob("mc:lists:head", one, lists, "TRUE", fixHead, "BanHolds BlacklistHoldsOrKnown", tm{2, 3, 2, 2, 5}),
 				mcJob("mc:lists+hs:as-is", one, listsHs, "TRUE", "{}", asIs, tm{2, 3, 2, 2, 3}),
@@ -1401,6 +1550,13 @@ func main() {
 				genRanges(env),
 				// deviation "split clean-up": every delete of a scanned address, every recorded deviation
 				genJob("legacy:clean-split", one, actsSplt, "TRUE", fixAll, `{"CleanDel", "dev"}`, tm{2, 3, 2, 2, 4}),
+				// several addresses fail and succeed (their failure records are released), then another address
+				// fails: every query of an address that would be over PermAt had it inherited the released counts
+				genRecycle(env),
+				// blacklist orders given while the storage write fails, over every state of the two entry forms
+				genFault(env),
+				// concurrent first AllowIP calls of an address without a bucket (repeated by the driver for many addresses)
+				genJob("gen:conc-first", one, `{"Anon", "Tick", "ConcFirst", "Flood"}`, "TRUE", fixAll, `{"ConcFirst"}`, tm{2, 3, 2, 2, 4}),
 			}
 			if env.Tier == "thorough" {
 				jobs = append(jobs,
@@ -1437,6 +1593,7 @@ func main() {
 				h &= 0xffffff
 			}
 			beh.Bad = []string{"unknown", "hmac", "nochal"}[h%3]
+			beh.FltAt = []string{"set", "list"}[(h/3)%2]
 			return []json.RawMessage{fw.MustJSON(beh)}
 		},
 		ExtraBeh: func(env *fw.Env) []json.RawMessage {
